@@ -88,6 +88,13 @@ func c15Oracle(r *SeqRun) []Viol {
 		if want, got := "set=1 get=1 get2=0", fmt.Sprintf("set=%d get=%d get2=%d", r.Probe["p_set"], r.Probe["p_get"], r.Probe["p_get2"]); want != got {
 			out = append(out, Viol{Key: "C15/not-fresh-after-clear", What: "after Clear the probe Set/Wait/Get/Del/Wait/Get observed " + got + ", a new cache gives " + want})
 		}
+		if r.Probe["m_on"] == 1 {
+			want := "hits=1 misses=1 keys-added=1 keys-evicted=1 cost-added=1 cost-evicted=1"
+			got := fmt.Sprintf("hits=%d misses=%d keys-added=%d keys-evicted=%d cost-added=%d cost-evicted=%d", r.Probe["m_hits"], r.Probe["m_misses"], r.Probe["m_added"], r.Probe["m_evicted"], r.Probe["m_costadded"], r.Probe["m_costevicted"])
+			if want != got {
+				out = append(out, Viol{Key: "C15/metrics-not-fresh-after-clear", What: "after Clear the probe Set/Wait/Get/Del/Wait/Get left the metrics at " + got + "; on a new cache they are " + want})
+			}
+		}
 	case "close":
 		if !d.IsClosed {
 			out = append(out, Viol{Key: "C15/not-closed", What: "Close returned but the cache is not marked closed"})
@@ -155,6 +162,13 @@ func c15Probe(c seqCache, r *SeqRun) {
 			c.Wait()
 			_, ok = c.Get(9)
 			r.Probe["p_get2"] = b2i(ok)
+			// ... and its metrics count this little workload as a new cache's would
+			if m := c.Metrics(); m != nil {
+				r.Probe["m_hits"], r.Probe["m_misses"] = int64(m.Hits()), int64(m.Misses())
+				r.Probe["m_added"], r.Probe["m_evicted"] = int64(m.KeysAdded()), int64(m.KeysEvicted())
+				r.Probe["m_costadded"], r.Probe["m_costevicted"] = int64(m.CostAdded()), int64(m.CostEvicted())
+				r.Probe["m_on"] = 1
+			}
 		} else {
 			r.Probe["p_set"], r.Probe["p_get"], r.Probe["p_get2"] = 1, 1, 0
 		}
